@@ -338,7 +338,6 @@ int p_c18(void)
 		for (int t = 0; t < 6; t++, unit++) {
 			rep_unit(unit);
 			if (!rep_unit_mine(unit)) continue;
-			if (!T && t == 4) continue;
 			rng_t r = rng_make(g_run.seed, 1890 + (uint64_t)t, 18);
 			solver_case(&r, tall[t][1], tall[t][0], tall[t][2], 0);
 			if (T || t < 2) { rng_t r2 = rng_make(g_run.seed, 1895 + (uint64_t)t, 18); solver_case(&r2, tall[t][1], tall[t][0], tall[t][2], 1 + t % 3); }
